@@ -108,7 +108,7 @@ func RandomManifest(r *fw.Rand) Manifest {
 		rg := MRegistry{Source: r.Pick([]string{"example.com/ns/m/sys", "ns/m/aws", "example.com/ns/m/sys", "ns/m2/aws", "app.terraform.io/o/m/sys", "ns/m/aws", "bad registry", "example.com/ns/m/sys//sub", ""}), Versions: map[string]MVersion{}}
 		nv := r.Intn(3)
 		for k := 0; k < nv; k++ {
-			v := r.Pick([]string{"1.0.0", "2.0.0-beta.1", "0.0.0", "1.2.3", "10.0.0", "3.0.0+meta", "1.0.0", "2.0.0", "not-a-version", "1.0", "v1.0.0", ""})
+			v := r.Pick([]string{"1.0.0", "2.0.0-beta.1", "0.0.0", "1.2.3", "10.0.0", "3.0.0+meta", "1.99999999999999999999.0", "18446744073709551616.0.0", "1.0.0", "2.0.0", "not-a-version", "1.0", "v1.0.0", ""})
 			mv := MVersion{Source: manifestSources[r.Intn(len(manifestSources))]}
 			if r.Chance(1, 2) {
 				mv.Source += "//" + r.Pick([]string{"mod", "a/b", "mod", "x", "a/b/c", "..", "a/../b", ""})
